@@ -919,7 +919,8 @@ func init() {
 				}
 			}
 		}
-		c.close([]string{"serve:signout", "signout:replay", "signout:del-fault", "signout:parts-1", "signout:refresh-at-signout", "signout:during-refresh", "signout:outage", "signout:foreign-host", "signout:unvalidatable-ticket"})
+		c.close([]string{"serve:signout", "signout:replay", "signout:del-fault", "signout:parts-1", "signout:refresh-at-signout", "signout:during-refresh", "signout:outage", "signout:foreign-host", "signout:unvalidatable-ticket",
+			"signout:redis-stall", "signout:form-logins", "signout:cookie-header-lines", "signout:behind-proxy", "signout:del-fault-backend-logout", "signout:vs-slow-refresh"})
 	})
 
 	registerSuite("cookieattrs", func(c *suiteCtx) {
@@ -1027,7 +1028,7 @@ func init() {
 				gs = append(gs, fmt.Sprintf("cn=team-%03d-%x,ou=groups,dc=example,dc=com", i, newRng(uint64(i)).bytes(6)))
 			}
 			many.Groups = gs
-			if e, err := newEnv(c, proxyCfg{CookieMinimal: true, CookieSecure: true, InjectRequest: defaultInject()}); err == nil {
+			if e, err := newEnv(c, proxyCfg{CookieMinimal: true, CookieSecure: true, InjectRequest: []options.Header{claimHeader("X-Forwarded-User", "user"), claimHeader("X-Forwarded-Groups", "groups")}}); err == nil {
 				b := newBrowser()
 				if lr := e.login(b, many, "/after"); lr.OK {
 					c.count("c18:minimal-many-groups")
@@ -1038,6 +1039,8 @@ func init() {
 				}
 				c.casen("c18|minimal-many-groups", "")
 				e.close()
+			} else {
+				c.violation("HARNESS", "env (minimal cookie session): "+err.Error(), nil)
 			}
 		}
 		// spellings of cookie-samesite the documentation does not list: whatever validation lets through is the attribute the
@@ -1066,6 +1069,6 @@ func init() {
 		}
 		cfgBoolSpellings(c, "C18", map[string]func(*options.Options) bool{"cookie-secure": func(o *options.Options) bool { return o.Cookie.Secure },
 			"cookie-httponly": func(o *options.Options) bool { return o.Cookie.HTTPOnly }, "cookie-csrf-per-request": func(o *options.Options) bool { return o.Cookie.CSRFPerRequest }})
-		c.close([]string{"c18:flow", "c18:set-cookie", "c18:refresh-reissue"})
+		c.close([]string{"c18:flow", "c18:set-cookie", "c18:refresh-reissue", "c18:minimal-many-groups", "c18:samesite-spelling-rejected", "cfgpath:bool-spelling"})
 	})
 }
